@@ -168,6 +168,17 @@ func (c *closure) walk(v reflect.Value, path string, locals map[interface{}]bool
 			}
 		case *ir.Module:
 			return
+		case *constant.BlockAddress:
+			// `blockaddress(@f, %b)`: the block is a block of THAT function (a block with the same label in another function is a wrong binding)
+			if bb, ok := x.Block.(*ir.Block); ok {
+				if fn, ok := x.Func.(*ir.Func); ok && bb.Parent != fn {
+					pn := "<nil>"
+					if bb.Parent != nil {
+						pn = bb.Parent.Ident()
+					}
+					c.fail("blockaddress(%s, %s) holds a block of %s at %s", fn.Ident(), bb.Ident(), pn, path)
+				}
+			}
 		}
 		if ins, ok := obj.(ir.Instruction); ok {
 			if locals == nil || !locals[ins] {
